@@ -51,6 +51,10 @@ CHECKS = {
                 text="Inventory of all statics of all workspace crates with classification (immutable / lazy_static fn-pointer cell whose initialiser only performs CPU-feature detection / forbidden), references to statics from API-reachable workspace code, absence of manual Send/Sync impls, and a type-level witness crate asserting Send + Sync for 26 public state types. No shared mutable state plus &mut exclusivity decides independence from thread and instance interleavings.",
                 note="Trusted: std::sync::Once (lazy_static), std_detect's atomic cache, rustc's auto-trait and borrow checking. One-time initialisation itself is not re-verified.",
                 technique="whole-workspace static/effect inventory over compiler item tables; who-may-call rule for lazy initialisers; compile-pass auto-trait witnesses"),
+    "C04": dict(level=TV, design="3/C04",
+                text="BLAKE compression function for every Machine instantiation and through the run-time dispatcher (symbolic chaining value, block, counter) equals the final-round specification with recomputed constants; Default gives the specified IVs; finalize_into_dirty is specialised to EVERY buffer position (64 resp. 128 per variant, 384 in all) with the compression function as an uninterpreted symbol on both sides and must feed exactly the specified padded blocks, counters and output truncation. Together with C17 (counter arithmetic) this decides the property for all messages.",
+                note="Trusted: spec/blake.py (validated against the submission vectors), models of core slice functions; block-buffer is interpreted from its real MIR. Message lengths beyond the format limit are outside the domain.",
+                technique="value-graph normalisation of MIR vs reference; exhaustive case split over the buffer position (a selector the code only compares and indexes with)"),
 }
 
 REASONS = {}
